@@ -106,7 +106,7 @@ Definition ids_sorted (l : list mhk) : list N := sort_N (map mid l).
 Definition lookup_ids (dict : list mhk) (ids : list N) : list mhk :=
   dedup_ids (filter (fun k => mem_N (mid k) ids) dict) [].
 
-Record sst := { sp_set : option (list mhk); sp_dict : list mhk; sp_size_trust : bool; sp_code : nat }.
+Record sst := { sp_set : option (list mhk); sp_dict : list mhk; sp_size_trust : bool; sp_poison : bool; sp_code : nat }.
 
 Definition worse (a b : nat) : nat := if Nat.eqb a 2 then 2 else if Nat.eqb b 0 then a else if Nat.eqb a 0 then b else Nat.min a b.
 
@@ -152,9 +152,11 @@ Definition spec_step (st : sst) (o : op) (ob : step_obs) : sst :=
     end in
   (* a failed operation makes the keystore recount; a counter spoilt by a call
      with a repeated key stays wrong until then (Close persists it) *)
-  let trust := match so_res ob with
-               | BErr => true
-               | _ => sp_size_trust st && negb dup
+  let poison := sp_poison st || dup in
+  let trust := match o, so_res ob with
+               | _, BErr => true
+               | OCrash _, _ => sp_size_trust st && negb poison  (* a spoilt persisted size may come back *)
+               | _, _ => sp_size_trust st && negb dup
                end in
   let bad_size := match s' with
                   | Some s => trust && negb (Z.eqb (so_size ob) (Z.of_nat (length s)))
@@ -164,7 +166,7 @@ Definition spec_step (st : sst) (o : op) (ob : step_obs) : sst :=
                                            | Some s => negb (Z.eqb (so_size ob) (Z.of_nat (length s)))
                                            | None => false end) in
   let code := if bad_now then (if dup then 4 else 2) else 0 in
-  {| sp_set := s'; sp_dict := dict; sp_size_trust := trust; sp_code := worse (sp_code st) code |}.
+  {| sp_set := s'; sp_dict := dict; sp_size_trust := trust; sp_poison := poison; sp_code := worse (sp_code st) code |}.
 
 Fixpoint spec_run (st : sst) (ops : list op) (obs : list step_obs) : nat :=
   match ops, obs with
@@ -173,7 +175,7 @@ Fixpoint spec_run (st : sst) (ops : list op) (obs : list step_obs) : nat :=
   | _, _ => 2
   end.
 Definition spec_verdict (c : pcase) : nat :=
-  spec_run {| sp_set := Some []; sp_dict := []; sp_size_trust := true; sp_code := 0 |} (p_ops c) (p_impl c).
+  spec_run {| sp_set := Some []; sp_dict := []; sp_size_trust := true; sp_poison := false; sp_code := 0 |} (p_ops c) (p_impl c).
 
 (* ---- part 2: resettable keystore ---------------------------------------- *)
 Definition dk (pb : nat) (v i : N) : skey := dkey pb (mk v i).
